@@ -38,7 +38,8 @@ def token(draw):
         n = NAMES[op]
         return ('op', n if draw(st.booleans()) else n[3:], op)
     if k < 7:
-        n = draw(st.one_of(st.integers(-20, 20), st.sampled_from([127, 128, 255, 256, -127, -128, 32767, 65535, 2 ** 31 - 1, -(2 ** 31 - 1), 500000000])))
+        n = draw(st.one_of(st.integers(-20, 20), st.sampled_from([127, 128, 255, 256, -127, -128, 32767, 65535, 2 ** 31 - 1, -(2 ** 31 - 1), 500000000, 2 ** 31, 2 ** 31 + 1, -(2 ** 31), -(2 ** 31) - 1, 2 ** 32, 2 ** 40 + 5,
+                                                              2 ** 63 - 1, -(2 ** 63) + 1, 4294967297])))
         if n == 0:
             return ('op', '0', 0x00)
         return ('int', n)
@@ -49,6 +50,8 @@ def token(draw):
             return ('int', int(text))
     except ValueError:
         pass
+    if draw(st.integers(0, 3)) == 0:
+        return ('hex', b, '0x')         # the spelling the tool's own ambiguity warning recommends
     if ('OP_' + text) in A.BY_NAME:
         return ('op', text, A.BY_NAME['OP_' + text])
     return ('hex', b, '')
